@@ -24,12 +24,11 @@ CLAIMS = {
         "compared with the model's comparator on generated and small-domain order pairs.",
    note=COMMON_NOTE),
  "C03": dict(level="proof", suites=["M"], design="5/C03",
-   technique="Coq proof of the post-condition + differential correspondence incl. error kinds; 'never raises' decided by monitor + correspondence of Err sites",
-   text="Theorems C03_* (props/C03.v): after a round that returns, if both sides are non-empty and one best order is a limit order then both are and best bid < best ask; "
-        "reachable books are sorted so heads are the best orders; no fill unless the market is running. The claim 'the round never raises' is carried by the model's "
-        "explicit Err sites (one per assertion of Market._execution/change_order_volume), which the correspondence compares with the real engine on every generated "
-        "history (market-order share 0-50%, call-auction accumulation): a raise in the code or an Err in the model on a reachable book is a violation. "
-        "The closed-form theorem 'execution never returns Err on a book_ok state' is not yet proved (see DESIGN 5/C03, partial).",
+   technique="Coq proof that a matching round never returns an error (walk followed on the books; price-defined argument through market-volume bookkeeping) + post-condition + differential correspondence incl. error kinds",
+   text="Theorems C03_* (props/C03.v): on EVERY well-formed running market (any depth, market orders on one or both sides, crossed books accumulated with matching off) the round returns - none of the model's "
+        "Err sites, which stand one-for-one for the assertions of Market._execution / _execute_orders / change_order_volume, is reachable; an executable book always yields a price; after a round, if both sides "
+        "are non-empty and one best order is a limit order then both are and best bid < best ask; on a stopped market the only refusal is 'market is not running'. All lifted to every state reachable by any "
+        "operation list. The model is compared with the real engine (results and exception kinds) on every generated history; the monitor recomputes the best orders from the resting set by the property's own ranking.",
    note=COMMON_NOTE),
  "C04": dict(level="proof", suites=["M"], design="5/C04",
    technique="Coq proof by invariant over all operation lists (lifetime invariant, dead-stays-dead) + differential correspondence of the full record stream",
